@@ -158,7 +158,7 @@ func (r ringShape) String() string {
 func checkC14(c *Ctx) {
 	c.Rule("C14.R1", "ring geometry, read off Check and Mark: each uses one window constant W, one shift a, one bit mask c and one index mask b on the sequence number; 2^a equals the bits of a block, c = 2^a - 1, the block count N is a power of two, b = N - 1, and W <= (N - 1) * 2^a (a block recycled by Mark must lie wholly below the window, otherwise a counter whose bit was wiped is accepted a second time) (constants of the SSA form)")
 	c.Rule("C14.R2", "Check and Mark agree: the same W, a, b and c in both, so the bit Mark sets is the bit Check tests and the counters Mark ignores as too old are those Check rejects (sibling cross-check)")
-	c.Decides("the constant geometry of the RFC 6479 ring bitmap and the agreement of its two users")
+	c.Decides("the constant geometry of the RFC 6479 ring bitmap and the agreement of its two users; that Mark zeroes only ring slots of blocks above the old top (linear obligations at every zero store); that the filter is fed with accepted counters only (Mark after Check and a nil Open, same counter)")
 	c.NotDecided("equivalence with a set-based filter over all counter histories (that every block above the old top IS cleared, behaviour at 2^64 wrap-around); the window size being 448 rather than another admissible value")
 	c.Rule("C14.R3", "Mark forgets only what left the window: every store of zero into the ring goes to the slot of a block cur+1 .. new (cur, new the block numbers of the old top and of the argument), and the whole ring is zeroed only when new - cur >= N; block cur and below may hold counters still inside the window (E2 linear obligations at each zero store)")
 	ringRule(c, "C14.R1", "C14.R2")
